@@ -197,7 +197,16 @@ public:
             entries = 1u << this->_info._bits_per_pixel;
         }
 
-        _palette.resize( entries, rgba8_pixel_t(0, 0, 0, 0));
+        io_error_if( entries < 0, "Invalid number of palette entries in BMP header." );
+
+        // pixel values index the palette directly: it must cover every value of the bit depth,
+        // also when the header declares fewer colors
+        std::size_t palette_size = static_cast< std::size_t >( entries );
+        if( this->_info._bits_per_pixel <= 8 && palette_size < ( std::size_t( 1 ) << this->_info._bits_per_pixel ))
+        {
+            palette_size = std::size_t( 1 ) << this->_info._bits_per_pixel;
+        }
+        _palette.resize( palette_size, rgba8_pixel_t(0, 0, 0, 0));
 
 		for( int i = 0; i < entries; ++i )
         {
